@@ -7,7 +7,8 @@ package PKGNAME
 //     and is then flagged modReduced;
 //   - the constants the library hands out: AssertIsInRange(Modulus()) is unsatisfiable (the modulus is the one constant
 //     kept unreduced), AssertIsInRange of modulus - 1 and of One() is satisfiable;
-//   - ToBits of a symbolic element in normal form returns boolean digits whose recomposition is the element's value.
+//   - ToBits of a symbolic element in normal form returns boolean digits whose recomposition is the element's value;
+//   - IsZero of an element in normal form on 1..NbLimbs limbs is 1 exactly when its value is 0 modulo p.
 // (added after seed C12-1)
 //verif:unwind 6000
 //verif:replay interpreter
@@ -15,7 +16,7 @@ package PKGNAME
 func verifHarness_emulatedRange() {
 	f, e := verifMkEmField(true)
 	_ = e
-	switch verifChoose(5) {
+	switch verifChoose(6) {
 	case 0:
 		a := verifEmElement(f, EMNBLIMBS, 0)
 		av := verifEmVal(a)
@@ -47,6 +48,15 @@ func verifHarness_emulatedRange() {
 		verifAssert(ok, "ToBits returns boolean digits")
 		verifAssert(v == av, "the digits of ToBits recompose to the element's integer value")
 		verifReach("tobits")
+	case 5:
+		// IsZero on an element in normal form on 1..NbLimbs limbs (constants and bit recompositions have fewer limbs than the modulus)
+		a := verifEmElement(f, 1+verifChoose(EMNBLIMBS), 0)
+		av := verifEmVal(a)
+		z := verifNU(f.IsZero(a))
+		verifEmDeferred(f, e, true)
+		verifAssert(z < 2, "IsZero returns a boolean")
+		verifAssert((z == 1) == (av%verifP == 0), "IsZero(a) is 1 exactly when a is congruent to 0 modulo the emulated modulus")
+		verifReach("iszero")
 	}
 	verifReach("emulated-range")
 }
